@@ -259,6 +259,16 @@ void h_to_integer_i8(void) { SYM_BASE(); RANGE_IN(11); TO_INTEGER_PRE(i8, 8, 11)
 void h_to_integer_u8(void) { SYM_BASE(); RANGE_IN(11); TO_INTEGER_PRE(u8, 8, 11);
   TO_INTEGER_POST(u8); }
 
+/* C-library grammar at 8 bits: value (negated in the unsigned type after '-'), end behind the digit run also on overflow, the clamp
+ * (max, or min after '-' for the signed type; max for the unsigned type) and the error class */
+/*@GROUP name=to_integer_c8 props=C10,C02 kind=K unwind=14 solver=kissat@*/
+void h_to_integer_c8(void) { VF_INPUT(u8, bsel); const int base = bsel == 0 ? 0 : (bsel == 1 ? 10 : (bsel == 2 ? 16 : 2)); __CPROVER_assume(bsel <= 3); RANGE_IN(11); VF_INPUT_BOOL(sg);
+  if (sg) { const ref_t r = s_parse_s(s, n, base, F_WS | F_MINUS | F_PLUS | F_PREFIX, LO_i8, HI_i8, 0, 8, 11); char *end = 0; int err = 9; i8 val = 0; to_integer_c_i8(s, (unsigned long)n, (i8)base, &end, &err, &val);
+    VF_ASSERT(err == r.cls, "to_integer<i8, C grammar>: error class"); if (r.cls != 1) { VF_ASSERT(val == (i8)r.value, "to_integer<i8, C grammar>: value, clamped to min/max on overflow"); VF_ASSERT(end == s + r.consumed, "to_integer<i8, C grammar>: end behind the digit run, also on overflow"); } }
+  else { const ref_t r = s_parse_s(s, n, base, F_WS | F_MINUS | F_PLUS | F_PREFIX, LO_u8, HI_u8, 1, 8, 11); char *end = 0; int err = 9; u8 val = 0; to_integer_c_u8(s, (unsigned long)n, (u8)base, &end, &err, &val);
+    VF_ASSERT(err == r.cls, "to_integer<u8, C grammar>: error class"); if (r.cls != 1) { VF_ASSERT(val == (u8)r.value, "to_integer<u8, C grammar>: value negated in the unsigned type after '-', max on overflow (also after '-')"); VF_ASSERT(end == s + r.consumed, "to_integer<u8, C grammar>: end behind the digit run, also on overflow"); } }
+  VF_REACH(); }
+
 /* =========================================== round trip, 8 bit (quick) ================================================== */
 /*@COMMON@*/
 #define ROUNDTRIP_PRE(T, W) VF_INPUT(T, v); CC_OUT(p, (W) + 2, (W) + 2)
